@@ -20,29 +20,29 @@ checks = {
  "C15": ("simmon", "exploration", "3 C15", "runtime monitoring: parameter-ordering assertions after input and twice a day, history monitor keyed by groundwater level",
    "Ordering 0<WP<FC<=PS<1 and WP<WRED<FC hold for every layer/day of the generated runs over table / explicit / PTF routes; same level => same parameters (one open finding for the input set-up); every day additionally compared with a reference run of the same scenario in which the daily groundwater update is forced to re-evaluate the parameters from scratch (no level has to recur); mixed-source and two-group profiles."),
  "C19": ("simmon", "exploration", "3 C19", "runtime monitoring: envelope assertion on every layer temperature every day + diffusion-number invariant",
-   "Temperatures stay inside the running envelope of imposed boundary values; diffusion number <= 1/2 on every layer-day observed."),
+   "Temperatures stay inside the running envelope of imposed boundary values; diffusion number <= 1/2 on every layer-day observed; density classes and measured densities from peat (0.15 g/cm3) to dense till (2.44 g/cm3 with the pore volume that goes with it)."),
  "C12": ("fnmon", "exploration", "3 C12", "runtime monitoring: exhaustive execution of the real date conversion functions against a calendar oracle (Go time package)",
-   "Exhaustive over the stated date range: all 72,684 dates x 4 formats x 4 separator variants x admissible century splits (each text also with blanks / tabs around it and with a blank-padded middle field; half of the format x split pairs and all extreme splits through the converter the real configuration reader builds), text->number->text identity, consecutive numbering, day-of-year, leap years, inverse function."),
+   "Exhaustive over the stated date range: all 72,684 dates x 4 formats x 4 separator variants x admissible century splits (each text also with blanks / tabs around it and with a blank-padded middle field; half of the format x split pairs and all extreme splits through the converter the real configuration reader builds), text->number->text identity, consecutive numbering, day-of-year, leap years, inverse function; the long-lived converters of both directions are also asked backwards, in zig-zag around every month change and in random jumps (the answer may not depend on the call history)."),
  "C17": ("fnmon", "exploration", "3 C17", "runtime monitoring: the real calcHermesBatch and hermes2go binaries executed for every (lines, nodes, encoding) triple up to the bound; executed log ids recorded and checked for exactly-once",
    "Exhaustive to the bound (quick L<=24,K<=26; thorough L<=60,K<=64; nine file shapes: LF / CRLF, blank lines, no final newline, one line of 5 kB / 40 kB, line ends on 32 KiB ... 256 KiB block boundaries; plus four files of 4 MiB (thorough 16 MiB) with line ends on / just before every power-of-two boundary from 4 KiB up, their 3x multiples and every whole MiB, partitioned for ten node counts, the ranges around the boundary lines executed): ranges contiguous/disjoint/covering, count equals -size, every range executed by hermes2go -lines, each line id executed exactly once."),
  "C20": ("simmon", "exploration", "3 C20", "runtime monitoring: groundwater level read at the probe on every simulated day compared with an independent interpolation / sinusoid; dense calls of the public interpolation function",
-   "Level of every simulated day equals series value / linear interpolation / nearest end value, or the configured sinusoid within [min,max]; the level lies between its two neighbouring series values exactly (no tolerance: a plateau is returned as it is); series selected by gwId= among decoy rows; levels of 0 dm; series entries aligned with the edges of the simulated period; function-level: nodes, neighbours of nodes, outside span, random interior days of generated series, queried in random order."),
+   "Level of every simulated day equals series value / linear interpolation / nearest end value, or the configured sinusoid within [min,max]; the level lies between its two neighbouring series values exactly (no tolerance: a plateau is returned as it is); series selected by gwId= among decoy rows, rows of other soils whose id extends / is extended by the simulated id; levels of 0 dm; series entries aligned with the edges of the simulated period; function-level: nodes, neighbours of nodes, outside span, random interior days of generated series, queried in random order."),
  "C05": ("simmon", "exploration", "3 C05", "runtime monitoring: the result files written by real generated runs are parsed and compared record by record with an independent calendar / rotation oracle",
    "Daily file: exactly the expected days (start..end, interval k, leap days) in order; yearly file: one record per annual output date inside the period; crop file: one record per harvested rotation entry in order; every record has the configured number of fields (fixed width: the line must be cut into exactly one cell per column, each at least as wide as configured and followed by a fill character); both styles; random output configurations (date column anywhere, leading empty text fields, separators, alignments, NA values, 0-2 header lines, calendar-edge annual dates). One open finding (end-date extension)."),
  "C14": ("simmon", "exploration", "3 C14", "runtime monitoring: probe-and-abort read-back of the effective configuration from the real reader for generated file/line/default combinations, plus full runs with decoy file values",
-   "Every scalar key (numeric, text, on/off, enum) in random subsets of file and line, numbers on the line also zero-padded / signed / in exponent form / with bare decimal point, unknown keys, missing file, two argument orders per case: effective value = line, else file, else default; full runs confirm the line value in run state and result files."),
+   "Every scalar key (numeric, text, on/off, enum) in random subsets of file and line, numbers on the line also zero-padded / signed / in exponent form / with bare decimal point, unknown keys, missing file, two argument orders per case: effective value = line, else file, else default; full runs confirm the line value in run state and result files; the input-format keys go on the line over opposite values in the file, half of the full runs with fileExtension=, and every full run is compared byte for byte with a reference run that has the values in the file, nothing on the line and standard file names."),
  "C04": ("simmon", "exploration", "3 C04", "runtime monitoring: on every simulated day the weather arrays the model uses are compared at the probe with the generator's truth table for that calendar date; fault cases (incomplete weather) must end with an error",
    "Three layouts, leap years, year changes, series starting early, sentinels incl. year boundaries, sunshine gaps of two or three days (the marker itself must never be consumed), station-line altitude / CO2, wind floor as consumed by Penman-Monteith, monthly precipitation correction by the calendar month of the date (leap years), header-driven CSV files with permuted / unknown / alias-named columns; incomplete inputs (ends early, gap, missing year, starts late): ten open findings where the readers' errors are dropped, one open finding for a sentinel at the edge of the loaded year range."),
  "C10": ("simmon", "exploration", "3 C10", "runtime monitoring: exactly-once / ordering checker over the management event log of real runs against a reference reader of the generated schedule, plus state-jump assertions with amounts from the fertiliser table",
-   "Fertilisation, tillage, irrigation, sowing, harvest: each scheduled action inside the period appears exactly once, in order, on its due day; pre-start actions ignored; irrigation water and N enter that day's infiltration / top layer; fertiliser pools change by the table amounts (organic part taken before the volatilisation loss); 20% of cases with automatic management switches."),
+   "Fertilisation, tillage, irrigation, sowing, harvest: each scheduled action inside the period appears exactly once, in order, on its due day; pre-start actions ignored; irrigation water and N enter that day's infiltration / top layer; fertiliser pools change by the table amounts (organic part taken before the volatilisation loss); 20% of cases with automatic management switches; fertiliser tables of the project's own (longer names, redefined shipped rows); 10 % of the cases run in a session that has already run a sister project with another fertiliser table."),
  "C16": ("simmon", "exploration", "3 C16", "runtime monitoring: sowing / harvest days from the management event log and every automatic irrigation / N application observed at the probes are checked against the generated rotation and automatic-management table",
-   "Rotation order, crop code and harvest year of every crop record; fixed dates hit exactly; automatic sowing inside its window and after the previous harvest, harvest not after the latest date, irrigation only in the stage window and not above the daily maximum, automatic N >= 0; all 16 switch combinations; permanent crops followed by themselves; every fourth case rewritten around the harvest day observed in a probe run (fixed sowing right after a triggered harvest)."),
+   "Rotation order, crop code and harvest year of every crop record; fixed dates hit exactly; automatic sowing inside its window and after the previous harvest, harvest not after the latest date, irrigation only in the stage window and not above the daily maximum, automatic N >= 0; all 16 switch combinations; permanent crops followed by themselves; every fourth case rewritten around the harvest day observed in a probe run (fixed sowing right after a triggered harvest); table rows without sowing window (0000) or without latest harvest date (0000)."),
  "C13": ("pairmon", "exploration", "3 C13", "runtime monitoring: differential paired runs of the real model on one generated project written in two encodings; result files compared byte for byte",
    "Eight pair kinds (crop classic/YAML/converter-binary YAML, soil, rotation, measurement txt/CSV, weather layouts 0/1/2 with a station line whose altitude differs from the configured one (also below sea level) and may carry CO2, date formats); every shipped annual main crop file covered; 12 significant digits of daily state compared."),
  "C18": ("pairmon", "exploration", "3 C18", "runtime monitoring: differential paired runs of the real model, override on the batch line vs the same edit in a copied parameter folder; result files compared byte for byte",
    "Every overridable base / per-stage / per-organ parameter x every shipped annual main crop file; 35 % of the pairs are 5-6 year runs in which other crops (preferably with more development stages) are grown before the crop of the overridden file; valid values: override == file edit; out-of-range value or index: run == run without overrides; an override naming a crop file that no crop of the run reads (classic and YAML names): run == run without overrides."),
  "C03": ("batchmon", "exploration", "3 C03", "runtime monitoring: Go race detector + event-trace checker + result-hash comparison over the real hermes2go binary under randomised schedules (concurrency, line order, GOMAXPROCS, injected delays); porcupine linearizability check of recorded file-pool histories",
-   "Every line's result files equal its solo reference under every explored schedule (batches contain repeated lines, exact duplicates, lines that log while valid, custom crop codes, a numerically unstable project, a project whose soil uses a texture class that only its own parameter folder defines, and configuration variants of one project), repeated solo runs reproduce, exactly one run_start/run_end per line in the trace, no race report, file-pool histories (files from a few bytes to 4 MiB, first-load storms) linearizable against a load-once model; the interleavings seen (max simultaneous runs, distinct completion orders) are reported."),
+   "Every line's result files equal its solo reference under every explored schedule (batches contain repeated lines, exact duplicates, lines that log while valid, custom crop codes, a numerically unstable project, a project whose soil uses a texture class that only its own parameter folder defines, a project whose own fertiliser table redefines a shipped fertiliser, a project whose csv soil file keeps the classic columns under their old names, and configuration variants of one project), repeated solo runs reproduce, exactly one run_start/run_end per line in the trace, no race report, file-pool histories (files from a few bytes to 4 MiB, first-load storms) linearizable against a load-once model; the interleavings seen (max simultaneous runs, distinct completion orders) are reported."),
  "C11": ("batchmon", "fault_enumeration", "3 C11", "runtime monitoring: fault enumeration (reported-error class x position x concurrency) over the real hermes2go binary with race detector, trace checker and result-hash comparison; bounded-progress monitor on logical steps for termination",
    "Seven reported-error classes, each in several shapes (other horizon, window boundaries incl. the harvest day, single-day / late gaps, ids extending or shortening an existing id), each fail only their own line with the expected message, all other lines equal their solo results, the summary lists exactly the failed ids; runs incl. fertiliser prediction at latitudes -70..80 stay within the logical step bounds; a crash on a valid generated input is reported."),
 }
